@@ -94,7 +94,7 @@ StepBlock(e) ==
         ELSE ""
       \* C01 / C02 on the delivery path: a relayed block that entered the chain state spends only what is there and authorised, and conserves value
       c12 ==
-        IF Focus \cap {"C01", "C02"} = {} \/ ~relay \/ ~accepted \/ b.parent \notin pre \/ b.height <= Horizon THEN ""
+        IF Focus \cap {"C01", "C02", "C16"} = {} \/ ~relay \/ ~accepted \/ b.parent \notin pre \/ b.height <= Horizon THEN ""
         ELSE LET pu == utxo[b.parent] IN
              IF "C01" \in Focus /\ ~P_SpendsExist(b, pu) THEN "C01:spend_of_missing_or_spent_output"
              ELSE IF "C01" \in Focus /\ ~P_NoDoubleSpend(b) THEN "C01:output_spent_twice_in_block"
@@ -103,6 +103,7 @@ StepBlock(e) ==
              ELSE IF "C02" \in Focus /\ ~P_OneReward(b) THEN "C02:reward_transaction_malformed"
              ELSE IF "C02" \in Focus /\ ~P_TxValues(b, pu) THEN "C02:transaction_values_out_of_range_or_overspent"
              ELSE IF "C02" \in Focus /\ ~P_Reward(b, pu) THEN "C02:reward_exceeds_subsidy_plus_fees"
+             ELSE IF "C16" \in Focus /\ ~P_Reward(b, pu) THEN "C16:block_claiming_more_than_the_subsidy_of_its_height_plus_fees_entered_the_chain_state"
              ELSE ""
   IN \* the spec state follows the *implementation's* outcome where that outcome is explainable
      /\ UNCHANGED << miner, tid >>
@@ -254,6 +255,12 @@ StepRestart(e) ==
            ELSE IF served \ DOMAIN blocks # {} THEN "C09:block_that_was_never_accepted_is_in_the_chain_state_after_a_restart"
            ELSE IF KeepS = {} THEN "C08:restarted_node_has_no_chain_state"
            ELSE IF p.head \notin KeepS \/ (\E x \in KeepS : blocks[x].height > blocks[p.head].height) THEN "C08:restarted_head_is_not_of_the_greatest_height"
+           \* for the restarted process the blocks arrive in the order the store hands them over: its head is the first of them of the greatest height
+           ELSE IF "C04" \in Focus /\ (LET ro == SelectSeq(e.read_order, LAMBDA x : x \in KeepS)
+                                           top == {x \in KeepS : \A y \in KeepS : blocks[y].height <= blocks[x].height}
+                                           firstTop == SelectSeq(ro, LAMBDA x : x \in top)
+                                       IN Len(firstTop) > 0 /\ p.head # firstTop[1])
+                THEN "C04:head_after_a_restart_is_not_the_first_block_of_greatest_height_in_the_order_the_store_returns_them"
            ELSE IF Len(p.pool) # 0 THEN "C13:pending_transaction_survived_a_restart_without_being_submitted_again"
            ELSE ""
   IN /\ UNCHANGED << tid, miner, txd, arr, arrOrd, chainT, locT, outT, inT >>
